@@ -1,6 +1,8 @@
 #pragma once
 
 #include <crab/analysis/abs_transformer.hpp>
+#include <unordered_set>
+#include <vector>
 #include <crab/analysis/dataflow/liveness.hpp>
 #include <crab/analysis/fwd_analyzer.hpp>
 #include <crab/analysis/fwd_bwd_params.hpp>
@@ -54,12 +56,46 @@ class necessary_preconditions_fixpoint_iterator
   bb_abstract_map_t m_invariants;
   // preconditions from good states, otherwise from bad states
   bool m_good_states;
+  // blocks from which the exit block can be reached. The backward
+  // fixpoint only visits those blocks.
+  std::unordered_set<bb_label_t> m_can_reach_exit;
+
+  void compute_can_reach_exit() {
+    m_can_reach_exit.clear();
+    if (!m_cfg.has_exit()) {
+      return;
+    }
+    std::vector<bb_label_t> worklist{m_cfg.exit()};
+    m_can_reach_exit.insert(m_cfg.exit());
+    while (!worklist.empty()) {
+      bb_label_t n = worklist.back();
+      worklist.pop_back();
+      for (auto const &p : m_cfg.prev_nodes(n)) {
+        if (m_can_reach_exit.insert(p).second) {
+          worklist.push_back(p);
+        }
+      }
+    }
+  }
 
   /**
    * Compute necessary preconditions for a basic block
    **/
   virtual AbsDom analyze(const bb_label_t &node, AbsDom &&precond) override {
     auto &bb = m_cfg.get_node(node);
+
+    if (!m_good_states) {
+      // A successor that cannot reach the exit block is never
+      // visited by the backward fixpoint, so nothing is known about
+      // the errors reachable through it: any state at the end of
+      // this block might lead to an error.
+      for (auto const &succ : m_cfg.next_nodes(node)) {
+        if (m_can_reach_exit.count(succ) == 0) {
+          precond = m_absval_fac.make_top();
+          break;
+        }
+      }
+    }
 
     CRAB_LOG("backward-fixpoint",
              crab::outs() << "Post at "
@@ -138,6 +174,7 @@ public:
   
   // postcond: final states that we want to propagate backwards  
   void run_backward(AbsDom postcond) { 
+    compute_can_reach_exit();
     this->run(postcond);
   }
 
